@@ -285,13 +285,15 @@ def case_of_line(trace_lines, idx, is_start=lambda l: l.startswith("new ")):
     return [l.split(" => ")[0].strip() for l in trace_lines[start:end]]
 
 
-def ddmin(ops, still_fails, keep_first=True, budget=400):
-    """Delta-debugging over a list of op lines; the first line (constructor) is kept."""
+def ddmin(ops, still_fails, keep_first=True, budget=400, seconds=150):
+    """Delta-debugging over a list of op lines; the first line (constructor) is kept.
+    Bounded by a number of re-runs and by wall time (re-running a defective concurrent implementation can be slow)."""
     head = ops[:1] if keep_first else []
     body = ops[1:] if keep_first else ops[:]
     n = 2
     calls = 0
-    while len(body) >= 2 and calls < budget:
+    t_end = time.time() + seconds
+    while len(body) >= 2 and calls < budget and time.time() < t_end:
         chunk = max(1, len(body) // n)
         reduced = False
         for i in range(0, len(body), chunk):
